@@ -23,6 +23,7 @@ type lcDesc struct {
 	Timeout   bool     `json:"timeout"`         // serve with an idle timeout (C15)
 	Fires     int      `json:"fires"`           // accept-deadline expiries available to the timer thread
 	Plain     int      `json:"plain,omitempty"` // with Timeout and two rounds: round Plain-1 is served without a timeout (0 = every round has one)
+	NoListener bool    `json:"nolistener,omitempty"` // before the first round DoListen is called on the service while no listener is installed (it must fail and leave the service as it was)
 	OwnCtx    bool     `json:"ownctx,omitempty"` // every round is served under its own context, cancelled by the caller as soon as the serving call has returned (defer cancel())
 	Via       string   `json:"via"`             // "dolisten": install a listener + DoListen; "listen": Listen(address) with the network listen hooked onto the controlled listener
 }
@@ -55,6 +56,7 @@ type lcState struct {
 	hooked    []bool
 	nextBind  int
 	pendingTO *toRec
+	preErr    string
 }
 
 // toRec records one accept time-out as seen by the serving loop: the state when Accept returned the
@@ -79,6 +81,7 @@ var connScripts = map[string]struct {
 	"herr":      {[]string{"{\"method\":\"t.a.X\"}\x00"}, "half"},
 	"block":     {[]string{"{\"method\":\"t.a.B\"}\x00"}, "half"},
 	"idleclose": {nil, "close"},
+	"callhold":  {[]string{"{\"method\":\"t.a.R\"}\x00"}, "hold"},
 	"two":       {[]string{"{\"method\":\"t.a.R\"}\x00{\"method\":\"org.varlink.service.GetInfo\"}\x00"}, "half"},
 	// introspection only: these calls never pass through the dispatch-table lookup, so nothing but their own
 	// locking orders them with a registration
@@ -189,6 +192,11 @@ func lcBody(d lcDesc) func() {
 			return -1
 		}
 		vsched.GoDaemon("M", func() {
+			if d.NoListener {
+				if err := w.S.DoListen(w.Ctx, 0); err == nil {
+					st.preErr = "DoListen without a listener returned nil"
+				}
+			}
 			for r := 0; r < d.Rounds; r++ {
 				var err error
 				sctx := w.Ctx
@@ -380,6 +388,23 @@ func (w *World) rawClientOn(l *vnet.Listener, name string, chunks []string, end 
 		c.CloseWrite()
 	case "abort":
 		c.Abort()
+	case "hold":
+		// the client reads its reply and keeps the connection open until some Shutdown has returned, then closes
+		p := &rawPeer{c: c}
+		p.readFrame()
+		vsched.Yield("hold-until-shutdown-returned", name, func() bool {
+			st, ok := w.LC.(*lcState)
+			if !ok {
+				return true
+			}
+			for _, t := range st.shutRet {
+				if t != 0 {
+					return true
+				}
+			}
+			return false
+		})
+		c.Close()
 	}
 	w.ev("client-end %s", name)
 }
@@ -449,6 +474,12 @@ func lcCheck14(x *vsched.Exec) (string, string) {
 	}
 	if st.negCount {
 		return "active connection count went negative", "symptom=negative-count"
+	}
+	if st.preErr != "" {
+		return st.preErr, "symptom=dolisten-without-listener"
+	}
+	if d.NoListener && d.Via == "listen" && st.ret[0] != 0 && !st.hooked[0] {
+		return fmt.Sprintf("after a DoListen that failed for want of a listener, Listen on the same service returned %q without ever binding its address", st.retVal[0]), "symptom=service-unusable-after-failed-dolisten"
 	}
 	// a later run on the same object ends only for a reason of its own: some Shutdown was issued after the
 	// previous run had returned (what the previous run's caller does with its context is no such reason)
@@ -544,6 +575,8 @@ func scenariosC14(tier string) []Scen {
 	kinds := []string{"call", "abortmid", "herr", "idleclose"}
 	var connSets [][]string
 	connSets = append(connSets, nil)
+	// a connection that stays open until a Shutdown has returned, alone and behind one that has already ended
+	connSets = append(connSets, []string{"callhold"}, []string{"call", "callhold"}, []string{"idleclose", "callhold"}, []string{"herr", "callhold"})
 	for _, a := range kinds {
 		connSets = append(connSets, []string{a})
 	}
@@ -565,6 +598,8 @@ func scenariosC14(tier string) []Scen {
 		// reuse: two rounds
 		descs = append(descs, lcDesc{Conns: cs, Shutdowns: 2, Rounds: 2})
 		if len(cs) <= 1 {
+			// a failed DoListen (no listener installed) first, then an ordinary run
+			descs = append(descs, lcDesc{Conns: cs, Shutdowns: 1, Rounds: 1, NoListener: true})
 			// reuse with one context per run, each cancelled by its caller once the run is over
 			descs = append(descs, lcDesc{Conns: cs, Shutdowns: 2, Rounds: 2, OwnCtx: true})
 			descs = append(descs, lcDesc{Conns: cs, Shutdowns: 1, Rounds: 2, OwnCtx: true})
